@@ -58,4 +58,20 @@ let () =
          ignore n;
          if dump_string (Ref.JArr expected) = dump_string got then "ok"
          else "bad:expected " ^ dump_string (Ref.JArr expected) ^ " got " ^ dump_string got
-       | _ -> "bad:parse") | _ -> raise (Bad_op "lazymut"))
+       | _ -> "bad:parse") | _ -> raise (Bad_op "lazymut"));
+  (* an owned-lazy object after *get_mut(key) = new: the first member named key is replaced *)
+  reg "lazymutobj" (function h :: kh :: th :: _ ->
+      let key = bytes_of_hex kh in
+      (match parse_strict h with
+       | Some (Ref.JObj ms) ->
+         let present = Stdlib.List.exists (fun (((k, _), _), _) -> k = key) ms in
+         if not present then (if th = hex_of_bytes (Stdlib.List.map (fun c -> n_of_int (Char.code c)) (Stdlib.List.init 6 (String.get "absent"))) then "ok" else "bad:key is absent but a slot was returned")
+         else
+           (match parse_strict th with
+            | Some got ->
+              let newv = match parse_strict (hex_of_bytes (Stdlib.List.map (fun c -> n_of_int (Char.code c)) (Stdlib.List.init 15 (String.get "{\"new\":[1,\"x\"]}")))) with Some v -> v | None -> Ref.JNull in
+              let replaced = ref false in
+              let expected = Stdlib.List.map (fun ((((k, a), b), v) as m) -> if k = key && not !replaced then (replaced := true; (((k, a), b), newv)) else m) ms in
+              if dump_string (Ref.JObj expected) = dump_string got then "ok" else "bad:expected " ^ dump_string (Ref.JObj expected) ^ " got " ^ dump_string got
+            | None -> "bad:result does not parse")
+       | _ -> "bad:not an object") | _ -> raise (Bad_op "lazymutobj"))
